@@ -133,6 +133,35 @@ func derefNamedT(t types.Type) *types.Named {
 func (v *wireView) codecTypes(root *ssa.Function, keep func(*ssa.Call) bool) (marshalled, unmarshalled []*types.Named) {
 	seenM, seenU := map[*types.Named]bool{}, map[*types.Named]bool{}
 	for _, cv := range v.treeCalls(root) {
+		// a generic encoder: the value marshalled is of the helper's type parameter; what it stands for in this part of
+		// the tree is read off the instances of the helper that the kept calls reach
+		if calleeName(cv) == tbXSSHPath+".Marshal" && len(cv.Call.Args) == 1 {
+			at := types.Unalias(strip(cv.Call.Args[0]).Type())
+			if p, isPtr := at.Underlying().(*types.Pointer); isPtr {
+				if _, isTP := types.Unalias(p.Elem()).(*types.TypeParam); isTP {
+					at = types.Unalias(p.Elem())
+				}
+			}
+			if tp, isTP := at.(*types.TypeParam); isTP {
+				gen := cv.Parent()
+				for _, sc := range v.treeCalls(root) {
+					g := sc.Call.StaticCallee()
+					if g == nil || g == gen || g.Origin() != gen || !keep(sc) {
+						continue
+					}
+					tps, targs := gen.TypeParams(), g.TypeArgs()
+					for i := 0; i < tps.Len() && i < len(targs); i++ {
+						if tps.At(i) == tp {
+							if t := derefNamedT(targs[i]); t != nil && !seenM[t] {
+								seenM[t] = true
+								marshalled = append(marshalled, t)
+							}
+						}
+					}
+				}
+				continue
+			}
+		}
 		if !keep(cv) {
 			continue
 		}
